@@ -87,6 +87,44 @@ Proof.
     destruct ok; [|discriminate]. apply (can_split_go_spec _ _ _ _ Eg); lia.
 Qed.
 
+(* ... and the same with types_after: whatever types the split-off parts are to get, the nodes the split cuts are
+   non-isolating *)
+Lemma can_split_ta_go_spec : forall fuel r ta d base i,
+  can_split_ta_go s fuel r ta d base i = Ok true -> open_between r base d.
+Proof.
+  induction fuel as [|fuel IH]; intros r ta d base i H; [discriminate|]. cbn [can_split_ta_go] in H.
+  destruct (d <=? base) eqn:Ed.
+  - apply Nat.leb_le in Ed. intros k Hk1 Hk2. lia.
+  - apply Nat.leb_gt in Ed.
+    destruct (rp_node r d) as [n|] eqn:En; [|discriminate]. cbn [bind] in H.
+    destruct (rp_index r d) as [index|]; [|discriminate]. cbn [bind] in H.
+    destruct (isolating s n) eqn:Ei; [discriminate|].
+    match type of H with (do rest <- ?X; _) = _ => destruct X as [rest|]; [|discriminate] end. cbn [bind] in H.
+    destruct (can_replace0 s n (S index) (nchildren n)) as [cr|]; [|discriminate]. cbn [bind] in H.
+    destruct (negb cr || _); [discriminate|].
+    pose proof (IH _ _ _ _ _ H) as H3.
+    intros k Hk1 Hk2. destruct (Nat.eq_dec k d) as [->|Hne]; [exists n; auto|]. apply H3; lia.
+Qed.
+
+Theorem can_split_ta_not_across_isolating doc pos depth ta r :
+  can_split_ta s doc pos depth ta = Ok true -> resolve s doc pos = Ok r ->
+  depth <= rp_depth r /\ open_between r (rp_depth r - depth) (rp_depth r).
+Proof.
+  unfold can_split_ta. intros H Hr. rewrite Hr in H. cbn [bind] in H.
+  destruct (rp_depth r <? depth) eqn:Ed; [discriminate|]. apply Nat.ltb_ge in Ed. split; [exact Ed|].
+  destruct (rp_parent r) as [parent|] eqn:Ep; [|discriminate]. cbn [bind] in H.
+  destruct (rp_index r (rp_depth r)) as [index|]; [|discriminate]. cbn [bind] in H.
+  destruct (isolating s parent) eqn:Ei; [discriminate|].
+  destruct (can_replace0 s parent index (nchildren parent)) as [cr|]; [|discriminate]. cbn [bind] in H.
+  destruct (negb cr || _); [discriminate|].
+  intros k Hk1 Hk2.
+  destruct (Nat.eq_dec k (rp_depth r)) as [->|Hne].
+  - exists parent. split; [exact Ep|exact Ei].
+  - destruct (rp_depth r) as [|dm1] eqn:Edep; [lia|].
+    destruct (can_split_ta_go s (S (S dm1)) r ta dm1 (S dm1 - depth) (depth - 2)) as [ok|] eqn:Eg; [|discriminate]. cbn [bind] in H.
+    destruct ok; [|discriminate]. apply (can_split_ta_go_spec _ _ _ _ _ _ Eg); lia.
+Qed.
+
 (* covered_depths(from, to) - the depths Transform.delete_range / replace_range may expand the range to: a covered
    depth d lies below no isolating ancestor of either end (the ancestors at depths d .. min depth are all
    non-isolating), so the expanded range [start(d), end(d)] or [before(d), after(d)] stays inside the innermost
